@@ -190,6 +190,7 @@ func c14(tier string) []*explore.Scenario {
 		n = 50000
 	}
 	out = append(out, c14History(n))
+	out = append(out, apiSeqs("C14", tier)...)
 	return out
 }
 
